@@ -150,4 +150,55 @@ theorem sortBy_sorted (lt : α → α → Bool) (htrans : ∀ a b c, lt b a = fa
 example : iterate (fun n : Nat => n % 2 == 0) (some 3) (pages 2 7 [0, 1, 2, 4, 6, 8, 10]) = [0, 2, 4] := by decide
 example : iterate (fun _ : Nat => true) (some 0) (pages 2 3 [1, 2, 3]) = [] := by decide
 
+/-! ## negative limits of the convenience wrappers -/
+
+/-- **`limit = -n` returns the first `min n total` rows** … -/
+theorem wrapper_negative_rows (n : Nat) (rows : List α) : (wrapper (some (-(n : Int))) rows).1 = rows.take n ∨ n = 0 := by
+  by_cases hn : n = 0
+  · exact Or.inr hn
+  · left
+    have hneg : (-(n : Int)) < 0 := by omega
+    have habs : (-(n : Int)).natAbs = n := by omega
+    simp only [wrapper, hneg, ↓reduceIte, habs]
+    by_cases hl : (rows.take (n + 1)).length = n + 1
+    · simp only [hl, beq_self_eq_true, ↓reduceIte]
+      have hlen : n + 1 ≤ rows.length := by
+        rw [List.length_take] at hl; omega
+      rw [List.dropLast_eq_take, hl, List.take_take]
+      congr 1
+      omega
+    · have hne : ((rows.take (n + 1)).length == n + 1) = false := by simpa using hl
+      simp only [hne, Bool.false_eq_true, ↓reduceIte]
+      have hlen : rows.length < n + 1 := by
+        rw [List.length_take] at hl; omega
+      rw [List.take_of_length_le (by omega), List.take_of_length_le (by omega)]
+
+/-- … **and warns exactly when rows were left out** -/
+theorem wrapper_negative_warns (n : Nat) (hn : 0 < n) (rows : List α) : (wrapper (some (-(n : Int))) rows).2 = decide (n < rows.length) := by
+  have hneg : (-(n : Int)) < 0 := by omega
+  have habs : (-(n : Int)).natAbs = n := by omega
+  simp only [wrapper, hneg, ↓reduceIte, habs]
+  by_cases hl : (rows.take (n + 1)).length = n + 1
+  · simp only [hl, beq_self_eq_true, ↓reduceIte]
+    rw [List.length_take] at hl
+    simp; omega
+  · have hne : ((rows.take (n + 1)).length == n + 1) = false := by simpa using hl
+    simp only [hne, Bool.false_eq_true, ↓reduceIte]
+    rw [List.length_take] at hl
+    simp; omega
+
+theorem wrapper_negative_length (n : Nat) (hn : 0 < n) (rows : List α) : (wrapper (some (-(n : Int))) rows).1.length = min n rows.length := by
+  rcases wrapper_negative_rows n rows with h | h
+  · rw [h, List.length_take]
+  · omega
+
+theorem wrapper_nonnegative (n : Nat) (rows : List α) : wrapper (some (n : Int)) rows = (rows.take n, false) := by
+  have : ¬ ((n : Int) < 0) := by omega
+  simp [wrapper, this]
+
+theorem wrapper_none (rows : List α) : wrapper none rows = (rows, false) := rfl
+
+example : wrapper (some (-3)) [1, 2, 3] = ([1, 2, 3], false) ∧ wrapper (some (-3)) [1, 2, 3, 4] = ([1, 2, 3], true)
+    ∧ wrapper (some (-1)) [7] = ([7], false) ∧ wrapper (some (-3)) [1, 2] = ([1, 2], false) := by decide
+
 end C16
